@@ -257,6 +257,59 @@ def check_case(case):
                 res.violation("time+freq slice|time labels", f"time metadata differ from the time-only slice [{sub}]",
                               case, sub)
             res.hits["combined slice"] += 1
+    # ---- assignment histories on ONE object: labels must always follow the object's current metadata
+    if case.get("full", True) or n in (2, 3, 4):
+        import itertools as _it
+        ops = [("read", None), ("align", "bottom"), ("align", "top"), ("align", "center"), ("center", 1.0), ("bw", 2.0), ("slice", None)]
+        if baseband:
+            # a baseband signal is re-created by every slice with chan_bw = sample_rate (C16), so an assigned chan_bw cannot
+            # survive slicing: chan_bw assignment is outside this history alphabet for baseband classes
+            ops = [o for o in ops if o[0] != "bw"]
+        for seq in _it.product(range(len(ops)), repeat=3):
+            if len(set(seq)) == 1 and seq[0] == 0:
+                continue
+            obj = type(zn).like(zn)
+            names = []
+            try:
+                for i in seq:
+                    kind, arg = ops[i]
+                    names.append(f"{kind}{'' if arg is None else '=' + str(arg)}")
+                    if kind == "read":
+                        _ = obj.channel_freqs
+                    elif kind == "align":
+                        obj.freq_align = "".join(list(arg))
+                    elif kind == "center":
+                        obj.center_freq = obj.center_freq + arg * obj.chan_bw
+                    elif kind == "bw":
+                        obj.chan_bw = obj.chan_bw * arg
+                    elif kind == "slice":
+                        par = labels_of(obj.channel_freqs)
+                        child = obj[:, (1 if obj.nchan > 1 else 0):]
+                        cw = par[(1 if obj.nchan > 1 else 0):]
+                        got = labels_of(child.channel_freqs)
+                        if len(got) != len(cw) or max(abs(g - w) for g, w in zip(got, cw)) > scale * 32 * REL * 4:
+                            res.violation("assignment history|slice labels", f"after {names}: slice labels differ from the parent's "
+                                          f"selected labels", case, {"history": names})
+                    res.transitions += 1
+                    # labels == formula on the object's CURRENT metadata
+                    a_ = A[obj.freq_align] if obj.nchan % 2 == 0 else F(1, 2)
+                    own = [hz(obj.center_freq) + hz(obj.chan_bw) * (j + a_ - F(obj.nchan, 2)) for j in range(obj.nchan)]
+                    got = labels_of(obj.channel_freqs)
+                    sc2 = max(abs(hz(obj.center_freq)), obj.nchan * hz(obj.chan_bw))
+                    if max(abs(g - w) for g, w in zip(got, own)) > sc2 * 8 * REL:
+                        res.violation("assignment history|stale labels", f"after {names}: channel_freqs = {[float(g) for g in got][:3]}.. "
+                                      f"but center_freq/chan_bw/freq_align now give {[float(w) for w in own][:3]}..", case,
+                                      {"history": names})
+                        break
+                    mn, mx = hz(obj.min_freq), hz(obj.max_freq)
+                    if abs((mx - mn) - obj.nchan * hz(obj.chan_bw)) > sc2 * 16 * REL:
+                        res.violation("assignment history|band width", f"after {names}: max_freq - min_freq != nchan*chan_bw", case,
+                                      {"history": names})
+                        break
+            except Exception as e:
+                res.violation("assignment history|raised", f"{names}: {type(e).__name__}: {e}", case, {"history": names})
+            res.traces += 1
+        res.hits["assignment histories"] += 1
     # component selection
     if cls == "FullStokesSignal":
         for k, name in enumerate("IQUV"):
@@ -304,7 +357,7 @@ def main(argv=None):
     return report.run_check(
         PID, gen_cases=gen_cases, check_case=check_case, describe=describe,
         required_hits=["odd nchan forced center", "negative channel bound", "open channel bound", "nested slice",
-                       "even->even->even from non-center alignment", "combined slice", "stokes component",
+                       "even->even->even from non-center alignment", "combined slice", "assignment histories", "stokes component",
                        "trailing-axis selection"],
         assumptions=["Quantity unit scales are exact decimals (kHz = 1000 Hz); tolerance 8 ulp of max(|fc|, n*bw) per level",
                      "empty channel ranges and channel steps are outside the property"],
